@@ -128,8 +128,10 @@ def cases(group):
     if kind == "FPS":
         inits.append("random")
     variants = ["none", "from-start", "before-last", "tight-abs", "tight-rel"] + (["relative"] if tier == "thorough" else [])
-    for init in inits:
+    for ii, init in enumerate(inits):
         for v in variants:
+            if tier == "quick" and v.startswith("tight") and ii > 0:
+                continue  # quick tier: tight thresholds with the first initialisation only
             yield dict(kind=kind, dir=d, X=X, y=y, cfg=cfg, init=init, thr=v, top=5 if tier == "quick" else 6)
     if d == "sample" and kind in ("FPS", "CUR"):
         yy = [float(i % 3) for i in range(len(X))]
